@@ -1,7 +1,7 @@
-\* C49 phase 2, quick: lists of <= 3 servers (two offsets), 2 readers, 2 SetServers calls, keys {1, 37, 200}
+\* C49 phase 2, quick: lists of <= 2 servers (two offsets), 2 readers, 2 SetServers calls, keys {1, 37, 200}
 SPECIFICATION Spec
 CONSTANTS Locked = TRUE
-          MaxServers = 3
+          MaxServers = 2
           Readers = {1, 2}
           MaxSets = 2
           Keys = {1, 37, 200}
